@@ -66,6 +66,7 @@ Classes(k) ==
     [] k = "json"     -> <<"empty", "scalars", "nested", "unicode", "large">>
     [] k = "jsonlist" -> <<"empty", "nested", "unicode">>
     [] k = "strmap"   -> <<"empty", "ascii", "unicode">>
+    [] k = "reducers" -> <<"empty", "one", "many">>              \* output key -> reducer name
     [] k = "refs"     -> <<"empty", "one", "many">>
     [] k = "bool"     -> <<"true", "false">>
     [] k = "status"   -> <<"e1", "e2", "e3", "e4", "e5", "e6", "e7", "e8", "e9", "e10", "e11", "e12">>   \* WorkflowStatus
@@ -98,7 +99,12 @@ StageFields == <<F("type", "text"), F("name", "text"), F("status", "status"), F(
    F("version", "nat"),
    F("join_type", "join"), F("join_threshold", "nat"), F("split_type", "split"), F("split_conditions", "strmap"),
    F("mi_config", "omi"), F("deferred_choice_group", "otext"), F("milestone_ref_id", "otext"),
-   F("milestone_status", "otext"), F("mutex_key", "otext"), F("cancel_region", "otext")>>
+   F("milestone_status", "otext"), F("mutex_key", "otext"), F("cancel_region", "otext"),
+   F("output_reducers", "reducers")>>
+   \* output_reducers (fan-in reducers, a control-flow setting) has no column of its own: the code persists it through the
+   \* private context key "_output_reducers" - in this model it is a field like the others (INSERTed, loaded, and, not
+   \* being in UpdCols, left alone by store_stage); the replayer, as the caller, carries the private key over when it
+   \* assigns a new context.
 
 (* columns of `UPDATE stage_executions SET ...` in store_stage (version is bumped, not assigned) *)
 UpdCols == {"status", "context", "outputs", "start_time", "end_time"}
@@ -285,7 +291,7 @@ Export == done => PrintT(<<"CASE", ToJson(hist)>>)
 (* The field tables, printed once: the replayer takes kinds and classes from here (single source of truth) *)
 (* and checks them against the dataclasses / MESSAGE_TYPES / table columns of the code under test.        *)
 AllKinds == {"text", "text1", "otext", "oint", "nat", "json", "jsonlist", "strmap", "refs", "bool", "status", "ostatus", "join",
-             "split", "owner", "oowner", "wftype", "omi", "opaused"}
+             "split", "owner", "oowner", "wftype", "omi", "opaused", "reducers"}
 Tables == [wf |-> WfFields, st |-> StageFields, tk |-> TaskFields, upd |-> UpdCols,
            msg |-> [t \in MsgTypes |-> MsgFields(t)], classes |-> [k \in AllKinds |-> Classes(k)]]
 ASSUME PrintT(<<"TABLES", ToJson(Tables)>>)
